@@ -357,6 +357,20 @@ def overrides(rep):
         rep.violation({'kind': 'override', 'via': 'composite'},
                       'C16 Composite({... _schema}) overrides give %r / %r'
                       % (cc['steps']['s'].get_schema(), cc['processes']['p'].get_schema()), {})
+    # two processes configured from one dictionary (shallow copies share its nested
+    # '_schema'): an override naming one of them must not reach the other
+    rep.evaluations += 1
+    cfg = {'_schema': {'v': {'x': {'_emit': False}}}}
+    a, b2 = TagProc(dict(cfg, tag='a')), TagProc(dict(cfg, tag='b'))
+    Composite({'processes': {'a': a, 'b': b2},
+               'topology': {'a': {'v': ('sa',)}, 'b': {'v': ('sb',)}},
+               '_schema': {'a': {'v': {'x': {'_default': 5}}}}})
+    sa, sb = a.get_schema()['v']['x'], b2.get_schema()['v']['x']
+    if sa != {'_default': 5, '_emit': False} or sb != {'_default': 0, '_emit': False} \
+            or cfg != {'_schema': {'v': {'x': {'_emit': False}}}}:
+        rep.violation({'kind': 'override', 'via': 'shared-config'},
+                      'C16 an override for process a changed %r / %r (b must keep default 0) '
+                      'and the configuration dictionary %r' % (sa, sb, cfg), {})
     # a process and a step under one name cannot both be kept: rejected everywhere
     rep.evaluations += 1
 
